@@ -35,6 +35,10 @@ theorem scalarLiteralGuard_spec : customOwnParseLiteralTakesAnyLiteral = true :=
     floats at the top level and nested in lists / dicts, and nothing finite. -/
 theorem defaultScalarParse_spec : defaultScalarParseRejectsNonFinite = true := by decide
 
+/-- The stand-in scalar's `parse_literal` is `_untyped_literal` itself, which receives the variables (fix C06-H7): a Variable inside a
+    structured literal stands for its value (None when absent). Read off the shape of `default_scalar`'s `parse_literal=` on every run. -/
+theorem standInLiteral_spec : standInLiteralSeesVariables = true := by decide
+
 theorem floatChecked_ok {c : FCls} {r pv : PV} (h : floatChecked c r = .ok pv) : pv = r ∧ c = .finite := by
   unfold floatChecked at h
   split at h
